@@ -221,6 +221,48 @@ func runDimCases(seed uint64, n int, outDir string, extra map[string]interface{}
 		}
 		cnt++
 	}
+	// alpha values: the number / percentage token is minified and then written in the shorter of its two spellings
+	// (minifyNumberPercentage, Css/CssAlpha.v): `a{color:rgba(1,2,3,A)}` in, the alpha token of the output out
+	alphas := 0
+	for i := 0; i < n/4; i++ {
+		keep := rnd(3) == 0
+		var tok string
+		switch rnd(5) {
+		case 0:
+			tok = pick("", "0") + "." + pick("5", "50", "05", "005", "0012", "125", "015", "9", "90", "09", "25", "050", "1", "10", "01", "001")
+		case 1:
+			tok = pick("50", "5", "10", "90", "12.5", "1", "99", "20", "0.5", "50.0", "05", "7.50") + "%"
+		case 2:
+			tok = pick("1e-1", "5e-2", "5E-1", "25e-2", "1.5e-1", "50e-1%", "5e1%", "0.5e2%", ".00e99999999999999999999", "0.00E+99999999999999999999", ".001e-9223372036854775808", ".00e5")
+		case 3:
+			tok = "0." + digits(1+rnd(4))
+		default:
+			tok = digits(1+rnd(2)) + pick("", "."+digits(1)) + "%"
+		}
+		src := "a{color:rgba(1,2,3," + tok + ")}"
+		var out bytes.Buffer
+		if err := (&cssmin.Minifier{KeepCSS2: keep}).Minify(m, &out, strings.NewReader(src), nil); err != nil {
+			continue
+		}
+		o := out.String()
+		wantPre, wantPost := "a{color:rgba(1,2,3,", ")}"
+		if !strings.HasPrefix(o, wantPre) || !strings.HasSuffix(o, wantPost) {
+			counts["alpha-skipped-shape"]++ // fully opaque / transparent values leave the function notation
+			continue
+		}
+		o = strings.TrimSuffix(strings.TrimPrefix(o, wantPre), wantPost)
+		k, pc := "0", "0"
+		if keep {
+			k = "1"
+		}
+		if strings.HasSuffix(tok, "%") {
+			pc = "1"
+		}
+		fmt.Fprintf(fin, "cssalpha\t%s\t%s\t%x\n", k, pc, tok)
+		fmt.Fprintf(fout, "%x\n", o)
+		alphas++
+	}
 	extra["cssdim_cases"] = cnt
+	extra["cssalpha_cases"] = alphas
 	extra["cssdim_kinds"] = counts
 }
